@@ -73,9 +73,13 @@ def gen_value(ch, depth=0, hashable=False):
         items, seen = [], set()
         for _ in range(n):
             kk = gen_value(ch, depth + 1, hashable=True)
-            if json.dumps(kk) in seen:
+            try:
+                pv = _pyval(kk)
+                if pv in seen:
+                    continue
+                seen.add(pv)
+            except TypeError:
                 continue
-            seen.add(json.dumps(kk))
             items.append([kk, gen_value(ch, depth + 1)])
         # keys of one type only (pydra sorts the keys)
         if items:
@@ -96,9 +100,13 @@ def gen_value(ch, depth=0, hashable=False):
                 e = {"t": "frozenset", "v": [{"t": "str", "v": ["a", "b", "c", "d"][ch.choose(4, "s")]} for _ in range(m)]}
             else:
                 e = gen_value(ch, depth + 1, hashable=True)
-            if json.dumps(e, sort_keys=True) in seen:
+            try:
+                pv = _pyval(e)
+                if pv in seen:
+                    continue
+                seen.add(pv)
+            except TypeError:
                 continue
-            seen.add(json.dumps(e, sort_keys=True))
             els.append(e)
         return {"t": k, "v": els}
     if k == "nd":
@@ -108,6 +116,24 @@ def gen_value(ch, depth=0, hashable=False):
             n *= s
         return {"t": "nd", "dtype": ["int64", "float32", "uint8"][ch.choose(3, "dtype")], "shape": shp, "data": [ch.choose(5, "nd") for _ in range(n)]}
     raise AssertionError(k)
+
+
+def _pyval(spec):
+    """hashable Python value of a hashable spec (used to keep generated set elements /
+    dict keys pairwise unequal: 1, 1.0 and True are ONE element of a Python set, and
+    which of them survives depends on the insertion order - that is Python, not pydra)"""
+    t = spec["t"]
+    if t in ("int", "float", "str", "bool"):
+        return spec["v"]
+    if t == "none":
+        return None
+    if t == "bytes":
+        return bytes.fromhex(spec["v"])
+    if t == "tuple":
+        return tuple(_pyval(s) for s in spec["v"])
+    if t == "frozenset":
+        return frozenset(_pyval(s) for s in spec["v"])
+    return json.dumps(spec, sort_keys=True)
 
 
 def features(spec, out=None):
